@@ -75,7 +75,12 @@ Forms ==
      P("rel", <<"d">>, "s", <<"gz", "docx">>, FALSE, TRUE) >>
 
 (* ---- property values ---- *)
-Alphabet == <<"a", "e1", "cy", "em", "dq", "sq", "lb", "rb", "am", "lt", "bs", "sp">>
+\* (nl / tb / ds: a token spelled as two letters with a newline / a tab / two blanks BETWEEN them -- interior white space)
+Alphabet == <<"a", "e1", "cy", "em", "dq", "sq", "lb", "rb", "am", "lt", "bs", "sp", "nl", "tb", "ds">>
+WsClasses == {"nl", "tb", "ds"}
+\* formats whose properties are XML element text (white space inside is content, kept by every XML parser); in HTML / RTF /
+\* PDF sources interior white space is markup-level (collapsible / ignored) and is not generated
+WsExact == {"docx", "xlsx", "pptx", "odt", "ods", "odp", "odg"}
 AlphaSet == Range(Alphabet)
 Idx(t) == CHOOSE i \in DOMAIN Alphabet : Alphabet[i] = t
 Vals == SeqsUpTo(AlphaSet, MaxVal) \ {<<>>}
@@ -89,6 +94,7 @@ Cases ==
     { [fmt |-> f, form |-> k, val |-> v] : f \in Formats, k \in DOMAIN Forms, v \in Vals \cup {DefaultVal} }
 CaseWanted(x) ==
     /\ (x.val # DefaultVal => HasProps(x.fmt))
+    /\ ((Range(x.val) \cap WsClasses # {}) => x.fmt \in WsExact)
     /\ (Full \/ x.val = DefaultVal \/ x.form = FormOf(x.val))
 
 (* ---- RTF \uN runs ---- *)
